@@ -230,6 +230,17 @@ def predictor_oracle(ctx, rep):
             cg.add_operator(op)
         gen = AGraphGenerator(8, cg)
         fitness = ExplicitRegression(training_data=ExplicitTrainingData(x.copy(), y.copy()))
+        wrapped = trial % 4 == 3
+        if wrapped:
+            # what SymbolicRegressor builds: a locally optimizing wrapper whose `training_data` is the inner function's
+            from bingo.local_optimizers.local_opt_fitness import LocalOptFitnessFunction
+            from bingo.local_optimizers.scipy_optimizer import ScipyOptimizer
+            cg = ComponentGenerator(1, constant_probability=0.4)
+            for op in ("+", "*"):
+                cg.add_operator(op)
+            gen = AGraphGenerator(6, cg)
+            fitness = LocalOptFitnessFunction(fitness, ScipyOptimizer(fitness, method="lm"))
+        rep.count("predictor_fitness_function", "local-optimization wrapper" if wrapped else "plain")
         ea = AgeFitnessEA(Evaluation(fitness), gen, AGraphCrossover(), AGraphMutation(cg), 0.4, 0.4, 12)
         hof = HallOfFame(4)
         with warnings.catch_warnings():
